@@ -147,6 +147,14 @@ Theorem C19_insert_limit : forall sp o cur st l,
 Proof. exact p_insert_limit. Qed.
 Print Assumptions C19_insert_limit.
 
+(* ... and the SET path of object settings *)
+Theorem C19_object_set_limit : forall sp o cur st tn c',
+  find_setting (sp_settings sp) (o_name o) = Some st -> s_type st = SObj tn -> o_code o = OSet ->
+  apply_cell sp o cur = Ok c' ->
+  exists x l, c' = Some x /\ v_value x = VList l /\ (length l <= g_max_set)%nat.
+Proof. exact p_object_set_limit. Qed.
+Print Assumptions C19_object_set_limit.
+
 (* filtered RESET on an object set *)
 Theorem C19_set_remove : forall sp o cur st l c',
   obj_set_setting sp (o_name o) st -> o_code o = ORem -> existing st cur = VList l ->
